@@ -88,6 +88,14 @@ def main() -> int:
     except ImportError:
         sys.stderr.write("HARNESS-ERROR: hypothesis is not importable; run setup.sh\n")
         return 2
+    # every scratch file of the run (the workers' Sphinx projects, include directories, corpora) lives under one
+    # private directory that is removed when the run ends, however the worker processes were stopped
+    import shutil
+    import tempfile
+
+    scratch = tempfile.mkdtemp(prefix=f"verif-run-{args.id}-")
+    os.environ["TMPDIR"] = scratch
+    tempfile.tempdir = scratch
     try:
         if args.replay:
             return core.run_replay(CHECKS[args.id], args.replay)
@@ -101,6 +109,9 @@ def main() -> int:
         sys.stderr.write(f"HARNESS-ERROR {args.id}: {type(exc).__name__}: {exc}\n")
         traceback.print_exc()
         return 2
+    finally:
+        tempfile.tempdir = None
+        shutil.rmtree(scratch, ignore_errors=True)
 
 
 if __name__ == "__main__":
